@@ -7,7 +7,10 @@ generations getters read the counter / the log; one generation tick, one record
 of the best pair and one callback per _Step in every reachable bookkeeping state
 (abstract simulation of the step-monitor protocol, Powell's deferred record
 included); monitor replacement prepends the old contents and invalidates the
-decorated objective.  NOT decided: call counts per iteration, equality of monitor
+decorated objective.  Round 3: the log protocol is also simulated under reconfiguration
+(SetGenerationMonitor in every reachable bookkeeping state keeps `generations`);
+Step finalizes a run it ended (shared with C05.j).
+NOT decided: call counts per iteration, equality of monitor
 contents with the real calls under non-default maps, monotonicity under
 non-idempotent constraints.
 """
